@@ -201,7 +201,8 @@ def make_generator(data, kind="byte", endian="little", mlw=None, domain="sync"):
         # ---- covers
         c.cover("done_pulse", O["done"] == 1)
         c.cover("stall_on_last_word", z3.And(m.streaming, m.final, z3.Not(m.ready)))
-        c.cover("start_refused_limit_zero", z3.And(m.idle, m.start, m.ml == 0))
+        if mlw:
+            c.cover("start_refused_limit_zero", z3.And(m.idle, m.start, m.ml == 0))
         if NW > 1:
             c.cover("second_word", z3.And(m.streaming, m.gi == 1))
             c.cover("nonzero_start_position", z3.And(m.streaming, m.gs != 0, m.take))
